@@ -9,7 +9,10 @@ use std::io;
 use std::io::{Read, Seek, SeekFrom};
 use std::ops::Deref;
 use std::sync::Arc;
+#[cfg(not(jubako_verif_shuttle))]
 use std::sync::Mutex;
+#[cfg(jubako_verif_shuttle)]
+use crate::verif::sync::Mutex;
 
 pub struct FileSource {
     source: Mutex<io::BufReader<File>>,
